@@ -14,9 +14,10 @@ with the fill loop the answer is chunking independent too (`assemble_eq_lz4`); w
 -/
 import S4V.Model.Wire
 import S4V.Model.Stream
+import S4V.Model.StreamSearch
 
 namespace S4V.Drv.Stream
-open S4V.Model S4V.Model.Wire S4V.Model.Stream S4V.Gen.Blocks S4V.Gen.Stream
+open S4V.Model S4V.Model.Wire S4V.Model.Stream S4V.Gen.Blocks S4V.Gen.Stream S4V.Model.StreamSearch
 
 def fnv1a (b : List UInt8) : UInt64 :=
   b.foldl (fun h x => (h ^^^ x.toUInt64) * 0x100000001b3) 0xcbf29ce484222325
@@ -72,6 +73,52 @@ def stepAsm : List String → String
       let body := if rs.isEmpty then "-" else String.intercalate "," ((rs.zip order).map fun (r, k) => showRes d bs k r)
       s!"fsz={r0.fsz} {body} high={p.2.high} nread={p.2.blocksRead.length}"
     | _, _, _, _, _ => "bad-op"
+  | _ => "bad-op"
+
+/-! ### op `strm`: the `is_streamed_file` table and what the readers above do with it
+
+request  strm flag <ft> <arch>
+reply    streamed=<bool> (generated `IS_STREAMED_TABLE`) | unopenable (file types `read_block`'s dispatch
+         answers with `panic!`: Evtx, Journal, Unparsable — `BlockReader::new` refuses them as well)
+
+request  strm seq <kind> <bs> <hex d> <keep 0|1> <order> <recipe…>
+reply    as `asm`; keep = 1: `disable_drop_data()` right after `new`. The chunk script is empty: with the
+         generated fill loops the answer is chunking independent (`assemble_eq_*`).
+
+request  strm proc <kind> <bs> <y|n> <A|n> <B|n> <recipe> <hex d>
+reply    same drop=<bool> streamed=<bool>: the container yields the plain file's messages (C05), the flag is
+         the table's for `FileType::Text`, and `drop_data` after block-zero analysis is off exactly under the
+         generated `keepAllBlocks` condition. -/
+
+def archOfKind : String → String
+  | "plain" => "Normal" | "gz" => "Gz" | "bz2" => "Bz2" | "lz4" => "Lz4" | "xz" => "Xz" | "tar" => "Tar"
+  | s => s
+
+def stepStrm : List String → String
+  | ["flag", ft, arch] =>
+    let arch := if arch = "-" then "" else arch
+    match READ_BLOCK_DISPATCH.find? (fun r => r.1 == ft && (r.2.1 == arch || r.2.1 == "_")) with
+    | none => "bad-op"
+    | some (_, _, fn) =>
+      if fn = "panic" then "unopenable"
+      else match isStreamed ft arch with
+        | some b => s!"streamed={b}"
+        | none => "bad-op"
+  | "seq" :: kind :: bs :: h :: keep :: order :: _ =>
+    match parseKind kind, bs.toNat?, unhex h, parseList order with
+    | some kind, some bs, some d, some order =>
+      if bs = 0 then "bad-op" else
+      let r0 := Rd.new kind bs d [] []
+      let r1 := if keep = "1" then r0.disableDropData else r0
+      let p := readSeq r1 order
+      let rs := cutAtPanic p.1
+      let body := if rs.isEmpty then "-" else String.intercalate "," ((rs.zip order).map fun (r, k) => showRes d bs k r)
+      s!"fsz={r0.fsz} {body} high={p.2.high} nread={p.2.blocksRead.length}"
+    | _, _, _, _ => "bad-op"
+  | "proc" :: kind :: _bs :: y :: _ =>
+    match isStreamed "Text" (archOfKind kind) with
+    | some s => s!"same drop={!(keepAllBlocks s (y == "y"))} streamed={s}"
+    | none => "bad-op"
   | _ => "bad-op"
 
 end S4V.Drv.Stream
